@@ -102,128 +102,9 @@ func c04frame(c *Ctx, r *Report, rule string) {
 		r.Fail(rule, "anchor (*fbb.Session).readCompressed not found")
 		return
 	}
-	where := fnName(fn)
-	var accept *ssa.Store
-	eachInstr(fn, func(_ *ssa.BasicBlock, _ int, instr ssa.Instruction) {
-		if st, ok := instr.(*ssa.Store); ok && strings.HasSuffix(pathOf(st.Addr), ".compressedData") {
-			accept = st
-		}
-	})
-	if accept == nil {
-		r.Fail(rule, "readCompressed never stores Proposal.compressedData (anchor unresolved)")
-		return
-	}
-	isReadByte := func(v ssa.Value) bool {
-		ex, ok := v.(*ssa.Extract)
-		if !ok {
-			return false
-		}
-		call, ok := ex.Tuple.(*ssa.Call)
-		return ok && callName(&call.Call) == "bufio.Reader.ReadByte" && ex.Index == 0
-	}
-	isAccumulator := func(v ssa.Value) bool {
-		ph, ok := v.(*ssa.Phi)
-		if !ok {
-			// the same running sum kept in a memory cell, possibly updated through a method (ip_h1.go)
-			return h1CellAccumulator(c, v, isReadByte)
-		}
-		if !isIntType(ph.Type()) {
-			return false
-		}
-		for _, e := range ph.Edges {
-			if e != ssa.Value(ph) && dependsOn(e, func(x ssa.Value) bool { return x == ssa.Value(ph) }) && dependsOn(e, isReadByte) {
-				return true
-			}
-		}
-		return false
-	}
-	loadOf := func(suffix string) func(ssa.Value) bool {
-		return func(v ssa.Value) bool {
-			ld, ok := v.(*ssa.UnOp)
-			return ok && ld.Op == token.MUL && strings.HasSuffix(pathOf(ld), suffix)
-		}
-	}
-	isCallTo := func(name string) func(ssa.Value) bool {
-		return func(v ssa.Value) bool {
-			if ex, ok := v.(*ssa.Extract); ok {
-				v = ex.Tuple
-			}
-			call, ok := v.(*ssa.Call)
-			return ok && callName(&call.Call) == name
-		}
-	}
-	sources := []struct {
-		name string
-		pred func(cd Cond) bool
-	}{
-		{"running block checksum", func(cd Cond) bool { return dependsOn(cd.V, isAccumulator) }},
-		{"declared compressed size", func(cd Cond) bool {
-			return dependsOn(cd.V, loadOf(".compressedSize")) && dependsOn(cd.V, isCallTo("bytes.Buffer.Len"))
-		}},
-		{"header length byte", func(cd Cond) bool {
-			b, ok := cd.V.(*ssa.BinOp)
-			if !ok {
-				return false
-			}
-			// one side is the byte read, the other the measured lengths of the two header strings
-			byteSide := func(v ssa.Value) bool { return isReadByte(strip(unwrap(v))) || isReadByte(unwrapConv(v)) }
-			lenSide := func(v ssa.Value) bool { return dependsOn(v, isCallTo("bufio.Reader.ReadString")) }
-			return (byteSide(b.X) && lenSide(b.Y)) || (byteSide(b.Y) && lenSide(b.X))
-		}},
-		{"requested offset", func(cd Cond) bool {
-			return dependsOn(cd.V, loadOf(".offset")) && dependsOn(cd.V, isCallTo("strconv.Atoi"))
-		}},
-	}
-	conds := condsAt(accept.Block())
-	for _, src := range sources {
-		o := r.Add(rule, where, "guard on "+src.name, c.pos(accept.Pos()))
-		var hit *Cond
-		for i := range conds {
-			if src.pred(conds[i]) {
-				hit = &conds[i]
-			}
-		}
-		if hit == nil {
-			o.Bad("the payload is accepted (store at %s) without a dominating guard that depends on the %s", c.pos(accept.Pos()), src.name)
-			continue
-		}
-		// the failing edge leads only to error exits
-		blk := hit.If.Block()
-		other := blk.Succs[1]
-		if !hit.Truth {
-			other = blk.Succs[0]
-		}
-		if !regionOnlyErrorExits(other) {
-			o.Bad("the failing edge of the %s check at %s does not lead to an error exit only", src.name, c.pos(hit.V.Pos()))
-			continue
-		}
-		// the pass edge must be the equality side for comparisons (also when the comparison is made by
-		// a predicate function: ip_h1.go)
-		if eq, known := h1EqPolarity(c, hit.V, hit.Truth, 0); known && !eq {
-			o.Bad("the payload is accepted on the MISMATCH edge of the %s check at %s", src.name, c.pos(hit.V.Pos()))
-			continue
-		}
-		o.OK("accepted only on the pass edge of the check at %s; its failing edge reaches error exits only", c.pos(hit.V.Pos()))
-	}
-	// the payload accepted is the buffer that was filled from the remote
-	o := r.Add(rule, where, "accepted payload is the received buffer", c.pos(accept.Pos()))
-	var bufPath string
-	if call, ok := accept.Val.(*ssa.Call); ok && callName(&call.Call) == "bytes.Buffer.Bytes" {
-		bufPath = pathOf(call.Call.Args[0])
-	}
-	fed := false
-	if bufPath != "" {
-		for _, ci := range callsTo(fn, false, "bytes.Buffer.WriteByte", "bytes.Buffer.Write") {
-			if pathOf(ci.Common().Args[0]) == bufPath && dependsOn(ci.Common().Args[1], isReadByte) {
-				fed = true
-			}
-		}
-	}
-	if fed {
-		o.OK("compressedData = %s.Bytes(), filled with the bytes read from the remote", derefPath(bufPath))
-	} else {
-		o.Bad("the stored payload is not the buffer filled from the remote reader")
-	}
+	// decided over the static call tree below readCompressed (ip_j2.go): the store, the guards, the
+	// running sum and the buffer may live in helpers, methods of a small local type or closures
+	j2FrameRule(c, r, rule, fn)
 }
 
 func unwrapConv(v ssa.Value) ssa.Value {
